@@ -256,8 +256,8 @@ fn new_memtable() -> (r: MemArc) { unimplemented!() }
 struct Condvar { _p: u8 }
 impl Condvar {
     // `state = self.cnd_needs_memtable_flush.wait(state).unwrap()`
-    #[verifier::external_body]
     // (ASSUMED, machine arithmetic: fewer than 2^64 - 1 sequence numbers are ever handed out)
+    #[verifier::external_body]
     fn wait_roll(&self, state: &mut RollState) requires old(state).inv() ensures final(state).inv(), final(state).seq_no < 0xffff_ffff_ffff_ffff { unimplemented!() }
 }
 impl WaitGuard {
